@@ -4,6 +4,7 @@ import Verif.Properties.C01Move
 import Verif.Properties.C01RetargetExample
 import Verif.Properties.C01PhasesExample
 import Verif.Properties.C01Import
+import Verif.Properties.C01Name
 #print axioms C01.cert_sound
 #print axioms C01.validated_start_pairs
 #print axioms C01.example_accepts
@@ -22,6 +23,8 @@ import Verif.Properties.C01Import
 #print axioms C01.retarget_run_preserves_meaning
 #print axioms C01.PhasesExample.example_applies
 #print axioms C01.import_preserves_meaning
+#print axioms C01.name_dependents_loop_preserves_meaning
+#print axioms C01.nameWith_with_dependents_preserves_meaning
 #print axioms C01.ImportExample.example_applies
 #print axioms C01.rewriteSchemaToRef_is_setAt
 #print axioms C01.tiny_targetsOK
